@@ -620,14 +620,16 @@ func c20ActorShapes(c *vlib.Ctx, root string, row *int) {
 			shapes = []map[string]any{{}}
 		}
 		for si, extra := range shapes {
-			for _, actor := range []string{"mallory", "alice2", "alic"} {
+			// an actor that is supplied but is not a JSON string is not the principal either
+			for _, actor := range []any{"mallory", "alice2", "alic", []any{"mallory"}, map[string]any{"id": "mallory"}, 42, true, []any{}} {
 				*row++
 				f, err := c20NewFixture(root, *row)
 				if err != nil {
 					c.Inconclusive(err.Error())
 					return
 				}
-				args := c20Args(tool, f, actor)
+				args := c20Args(tool, f, "mallory")
+				args["actor"] = actor
 				for k, v := range extra {
 					args[k] = v
 				}
@@ -645,16 +647,16 @@ func c20ActorShapes(c *vlib.Ctx, root string, row *int) {
 				}
 				c.Count("evaluations", 1)
 				c.Count("actor_shape_calls", 1)
-				c.Distinct("nontrivial", fmt.Sprintf("actor_shape:%s:%d:%s", tool, si, actor))
+				c.Distinct("nontrivial", fmt.Sprintf("actor_shape:%s:%d:%v", tool, si, actor))
 				wit := map[string]any{"tool": tool, "arguments": args, "principal": "alice", "is_error": ro.Result.IsError, "text": text[:minInt(300, len(text))], "audit": recs, "fs_diff": fsDiff(before, after)}
 				sig := vlib.Signature{"tool": tool, "shape": fmt.Sprint(si)}
 				if !(ro.Error != nil || ro.Result.IsError) {
 					sig["class"] = "actor_mismatch_accepted"
-					c.Violation(sig, fmt.Sprintf("%s with actor %q (principal alice) and %v ran: %s", tool, actor, extra, text[:minInt(160, len(text))]), wit)
+					c.Violation(sig, fmt.Sprintf("%s with actor %#v (principal alice) and %v ran: %s", tool, actor, extra, text[:minInt(160, len(text))]), wit)
 				}
 				if d := fsDiff(before, after); len(d) > 0 {
 					s2 := vlib.Signature{"class": "refused_call_had_effect", "tool": tool, "shape": fmt.Sprint(si)}
-					c.Violation(s2, fmt.Sprintf("%s with actor %q (principal alice) and %v changed files: %v", tool, actor, extra, d), wit)
+					c.Violation(s2, fmt.Sprintf("%s with actor %#v (principal alice) and %v changed files: %v", tool, actor, extra, d), wit)
 				}
 				if len(recs) != 1 {
 					c.Violation(vlib.Signature{"class": "audit_record_count", "tool": tool, "case": "actor_shape"}, fmt.Sprintf("%d audit records for one mutating call", len(recs)), wit)
